@@ -1,7 +1,7 @@
 SPECIFICATION Spec
 CONSTANTS
   Pair = "MLFEM"
-  MaxDepth = 5
+  MaxDepth = 4
   MaxCopies = 2
   MaxEdits = 1
   MaxReopens = 1
@@ -27,6 +27,7 @@ PROPERTY ReopenResolves
 PROPERTY CopyCopiesPartner
 PROPERTY EditIsLocal
 PROPERTY RefusedIsNoop
+PROPERTY ValidEditsAccepted
 INVARIANT ExportState
 ACTION_CONSTRAINT ExportTrans
 CHECK_DEADLOCK FALSE
